@@ -18,14 +18,14 @@ for d in sorted(glob.glob(os.path.join(V, "seeded", "*"))):
     caught = sorted(c for c, r in res.items() if r["exit"] == 1)
     missed = sorted(c for c, r in res.items() if r["exit"] == 0)
     broken = sorted(c for c, r in res.items() if r["exit"] not in (0, 1))
-    meta = {"property": a.get("property", name.split("-")[0]), "summary": a.get("summary", ""), "needs": a.get("needs", ""),
+    meta = {"property": a.get("property", name.split("-")[0]), "summary": a.get("summary", ""), "needs": str(a.get("needs") or a.get("needs_to_manifest") or ""),
             "files": a.get("files", []),
             "confirmed": "tools/confirm_seed.sh: demo.py exits 0 on a clean worktree of /repo HEAD and non-zero with patch.diff applied; the listed test files "
                          "give identical results with and without the patch (the seeder additionally ran: %s)" % str(a.get("tests_run", ""))[:600],
             "checks_run": {c: {"exit": r["exit"], "tier": "quick", "violations": [l for l in r["lines"] if l.startswith("VIOLATION")][:3]} for c, r in res.items()},
             "caught_by": caught, "not_caught_by": missed}
     json.dump(meta, open(os.path.join(d, "meta.json"), "w"), indent=1)
-    rows.append((name, meta["property"], ", ".join(caught) or "-", ", ".join(missed + broken) or "-", (a.get("needs", "") or "")[:140].replace("|", "/").replace("\n", " ")))
+    rows.append((name, meta["property"], ", ".join(caught) or "-", ", ".join(missed + broken) or "-", (str(a.get("needs") or a.get("needs_to_manifest") or "") or "")[:140].replace("|", "/").replace("\n", " ")))
 print("| seeded change | property | caught by (quick tier) | run but silent | needs |")
 print("|---|---|---|---|---|")
 for r in rows:
